@@ -8,11 +8,13 @@ independent RFC 9112 parser):
   h1 -> h2   requests with connection-specific fields, chunked bodies, several Cookie headers; responses h2 -> h1 with
              trailers / without content-length
   h2 -> h2   semantic round trip incl. trailers
+  h3 -> h1, h1 -> h3, h3 -> h3, h3 -> h2, h2 -> h3   the same clauses with an independent aioquic H3Connection peer over a
+             fake QUIC object (lib/h3peer.py); QPACK/frames are aioquic's, the stream mapping and translation are mitmproxy's
 Oracle: (a) one-message clause: bytes written to an HTTP/1 next hop parse into exactly one complete message per
 forwarded stream, with the recorded method/target/Host/fields/body, or mitmproxy refused the stream;
 (b) preservation clause: method, scheme, authority/Host, path, status, end-to-end fields (names case-insensitively,
 Cookie joined with "; " toward HTTP/1), body and trailers equal at the receiving peer.
-HTTP/3 legs are not exercised (see ASSUMPTIONS).
+Content-coded (gzip) bodies are generated so that wire length and decoded length differ.
 """
 import h2peer
 import h3peer
@@ -28,10 +30,10 @@ TECHNIQUE = "seeded-PRNG generation of (adversarial) header blocks per version p
 RULE = ("version pair x message (pseudo-header values, field list from an adversarial pool, body frames, trailers); non-trivial = "
         "version pair differs or the block contains >=1 adversarial element; distinct by (pair, element kinds, values)")
 ASSUMPTIONS = ["validate_inbound_headers is left at its default (on); the validation-off configuration is documented as unsafe",
-               "HTTP/3 legs (aioquic) are not exercised by this check: Http3 shares format/parse helpers with the HTTP/2 code path but its own wiring is uncovered",
-               "hyper-h2 is trusted as codec for the peers"]
-LEVEL_TEXT = "sampled exploration per version pair with exact comparison at the receiving peer; HTTP/3 not covered"
-LEVEL_NOTE = "trusts hyper-h2 (peers), lib/ref_http1.py and the sans-io driver"
+               "HTTP/3 is exercised above the QUIC layer: the peers speak HTTP/3 frames over a fake QUIC stream object; real QUIC/TLS handshakes are out of scope",
+               "hyper-h2 and aioquic are trusted as codecs for the peers"]
+LEVEL_TEXT = "sampled exploration over 8 client/server version pairs (h1, h2, h3) with exact comparison at the receiving peer"
+LEVEL_NOTE = "trusts hyper-h2 and aioquic (peers), lib/ref_http1.py and the sans-io driver"
 QUICK_N = 24_000
 THOROUGH_N = 1_000_000
 
